@@ -127,9 +127,8 @@ class SnapshotActionContext(FrameCollectorContext, ActionContext):
             context = LogActionContext(self.trigger_context, LocationAction(self.location_action.id, None, {
                 LOG_MSG: log_msg,
             }, LocationAction.ActionType.Log))
-            # the log expressions are added to this snapshot, so they have to use the same variable ids
-            context.var_cache = self.var_cache
-            log, watches, log_vars = context.process_log(log_msg)
+            # the log expressions are added to this snapshot, so they have to use its variable ids and limits
+            log, watches, log_vars = context.process_log(log_msg, self)
             snapshot.log_msg = log
             for watch in watches:
                 snapshot.add_watch_result(watch)
